@@ -19,20 +19,24 @@ HasTask(e) == e.ev \in {"submit", "submitret", "taskstart", "taskend"}
 
 \* one left-to-right pass over the history with the sets of submitted / returned / started /
 \* finished tasks; every event is checked against what precedes it
-Monitor(h) ==
+Monitor(h, nw) ==
   LET RECURSIVE F(_, _)
       F(i, m) ==
         IF i > Len(h) THEN m
         ELSE LET e == h[i] IN
           IF e.ev = "submit" THEN
-            F(i + 1, [m EXCEPT !.submitted = @ \cup {e.task}, !.once = @ /\ e.task \notin m.submitted])
+            F(i + 1, [m EXCEPT !.submitted = @ \cup {e.task}, !.once = @ /\ e.task \notin m.submitted,
+                               !.full = @ \/ m.nret - m.nend >= 3 * nw])
           ELSE IF e.ev = "submitret" THEN
-            F(i + 1, [m EXCEPT !.returned = @ \cup {e.task}, !.retok = @ /\ e.task \in m.submitted /\ e.task \notin m.returned])
+            \* back-pressure: a task whose Submit has returned sits in the queue (2 * workers slots), is in the hands of a
+            \* worker (one each), or has finished; a Submit beyond that must block until a task finishes
+            F(i + 1, [m EXCEPT !.returned = @ \cup {e.task}, !.retok = @ /\ e.task \in m.submitted /\ e.task \notin m.returned,
+                               !.nret = @ + 1, !.bp = @ /\ (m.nret + 1) - m.nend <= 3 * nw])
           ELSE IF e.ev = "taskstart" THEN
             F(i + 1, [m EXCEPT !.started = @ \cup {e.task}, !.cur = @ + 1, !.maxfl = IF m.cur + 1 > @ THEN m.cur + 1 ELSE @,
                                !.once = @ /\ e.task \in m.submitted /\ e.task \notin m.started])
           ELSE IF e.ev = "taskend" THEN
-            F(i + 1, [m EXCEPT !.ended = @ \cup {e.task}, !.cur = @ - 1,
+            F(i + 1, [m EXCEPT !.ended = @ \cup {e.task}, !.cur = @ - 1, !.nend = @ + 1,
                                !.once = @ /\ e.task \in m.started /\ e.task \notin m.ended])
           ELSE IF e.ev = "waitcall" THEN
             F(i + 1, [m EXCEPT !.atcall = m.returned, !.waiting = TRUE, !.waitshape = @ /\ ~m.waiting])
@@ -43,15 +47,18 @@ Monitor(h) ==
                                !.visible = @ /\ e.seen = e.submitted])
           ELSE F(i + 1, m)
   IN F(1, [submitted |-> {}, returned |-> {}, started |-> {}, ended |-> {}, atcall |-> {}, waiting |-> FALSE,
+           nret |-> 0, nend |-> 0, bp |-> TRUE, full |-> FALSE,
            cur |-> 0, maxfl |-> 0, once |-> TRUE, retok |-> TRUE, barrier |-> TRUE, visible |-> TRUE, waitshape |-> TRUE])
+
+NW(cfg) == IF cfg.W <= 0 THEN 1 ELSE cfg.W
+\* a slice of a longer run on one pool that stays open (no Close / leak probe at its end)
+Open(cfg) == "open" \in DOMAIN cfg /\ cfg.open
 
 Digest(cfg, h) ==
   [h |-> h,
-   m |-> Monitor(h),
+   m |-> Monitor(h, NW(cfg)),
    leaks |-> SelectSeq(h, LAMBDA e : e.ev = "leak"),
    bad   |-> \E k \in 1..Len(h) : h[k].ev \in {"race", "hang", "stuck", "panic"}]
-
-NW(cfg) == IF cfg.W <= 0 THEN 1 ELSE cfg.W
 
 C12_Clauses(cfg, D) ==
   [
@@ -59,12 +66,14 @@ C12_Clauses(cfg, D) ==
    exactlyOnce |-> D.m.once /\ D.m.started = D.m.submitted /\ D.m.ended = D.m.submitted,
    \* Submit returns for every task (it blocks while the queue is full, it never drops)
    submitReturns |-> D.m.retok /\ D.m.returned = D.m.submitted,
+   \* ... and it does block: never more returned-but-unfinished tasks than queue slots plus workers
+   backpressure |-> D.m.bp,
    \* Wait returns only after every previously submitted task has finished ...
    barrier     |-> D.m.barrier /\ D.m.waitshape /\ ~D.m.waiting,
    \* ... with their effects visible to the waiter (plain writes read back after Wait)
    visible     |-> D.m.visible,
    \* after Wait and Close all of the pool's goroutines terminate
-   noLeak      |-> Len(D.leaks) = 1 /\ D.leaks[1].n = 0,
+   noLeak      |-> Open(cfg) \/ (Len(D.leaks) = 1 /\ D.leaks[1].n = 0),
    \* no data race, no hang
    clean       |-> ~D.bad
   ]
@@ -80,6 +89,8 @@ PoolHits(cfg, D) ==
   [ multiSubmitter |-> cfg.S > 1,
     multiRound     |-> cfg.rounds > 1,
     beyondQueue    |-> Cardinality(D.m.submitted) > 2 * NW(cfg),
+    queueFull      |-> D.m.full,           \* a Submit was called while queue and workers were full: it had to block
+    paced          |-> Open(cfg),
     overlapped     |-> D.m.maxfl > 1,
     nonPositive    |-> cfg.W <= 0 ]
 =============================================================================
